@@ -19,7 +19,7 @@ pub fn meta() -> Meta {
         level: "model_checking",
         rule: "explicit-state search over pools of .skf files: level 0 = every ordered list of distinct samples (all subsets, all orders) built with the real build; each further level merges every ordered selection of 2..4 known files with disjoint sample sets through the real generic_modes::merge (the function `ska merge` calls); a file's state is its full content incl. hidden fields and states are de-duplicated, so the search closes when merged files are indistinguishable from built ones and keeps expanding otherwise (nested merges). Invariant in every state: table and name order equal the model's joint table and the real joint build of the same samples in that order. k in {7,31,33,63} x strand modes; n<=5 quick; thorough adds n=5 at both widths and n=6 with pairwise merges (chains and trees arise over the levels). Refusals (different k incl. 31 vs 33, different strand mode, both orders) through the CLI: non-zero exit and no output file. Selected merge trees are re-executed through `ska merge`.".into(),
         assumptions: vec!["sorted-row canonical form: merge treats rows independently".into()],
-        exhaustive_when_uncapped: false,
+        exhaustive_when_uncapped: true, // the declared bounded space (all selections / the whole lattice / all histories up to the depth bound / all interleavings and configurations) is enumerated completely unless capped
     }
 }
 
@@ -134,6 +134,7 @@ fn explore_cfg(c: &Cfg, ctx: &Ctx, rep: &mut Report, idx: &mut u64, max_level: u
             fileno += 1;
             let out = scratch::path(&format!("c07_{fileno}.skf"));
             rep.evaluations += 1;
+            rep.nontrivial += 1;
             rep.transitions += 1;
             let want = model_table(c, &list);
             let res = ops::op_merge(&files, &out).and_then(|_| FileState::read(&out));
